@@ -158,7 +158,7 @@ func (tx *Transaction) Commit(ctx context.Context, scope *ReferenceScope, expr p
 			}
 
 			if !tx.Flags.ExportOptions.StripEndingLineBreak && !(fileInfo.Format == option.FIXED && fileInfo.SingleLine) {
-				if _, err := fp.Write([]byte(tx.Flags.ExportOptions.LineBreak.Value())); err != nil {
+				if _, err := fp.Write([]byte(fileInfo.LineBreak.Value())); err != nil {
 					return NewCommitError(expr, err.Error())
 				}
 			}
@@ -184,7 +184,7 @@ func (tx *Transaction) Commit(ctx context.Context, scope *ReferenceScope, expr p
 			}
 
 			if !tx.Flags.ExportOptions.StripEndingLineBreak && !(fileInfo.Format == option.FIXED && fileInfo.SingleLine) {
-				if _, err := fp.Write([]byte(tx.Flags.ExportOptions.LineBreak.Value())); err != nil {
+				if _, err := fp.Write([]byte(fileInfo.LineBreak.Value())); err != nil {
 					return NewCommitError(expr, err.Error())
 				}
 			}
